@@ -153,13 +153,30 @@ def run_unit(uname, ucfg, tier, repo, verif, build, log):
     # harness crate fails with "cannot find function `f`", copy `fn f` from the source files this unit already extracts from
     # (plain text, byte for byte) and rebuild -- at most three rounds.
     rounds = 0
-    while rounds < 3 and ('error[E0425]' in out or 'error[E0433]' in out or 'cannot find macro' in out):
+    while rounds < 3 and ('error[E0425]' in out or 'error[E0433]' in out or 'cannot find macro' in out or 'error[E0599]' in out):
         missing = sorted(set(re.findall(r'cannot find function `(\w+)` in this scope', out)))
+        missing_assoc = sorted(set(re.findall(r'no (?:function or associated item|associated function or constant|associated item|method) named `(\w+)` found for (?:struct|enum) `(?:\w+::)*(\w+)`', out)))
         missing_types = sorted(set(re.findall(r'(?:cannot find type|use of undeclared type) `(\w+)`', out)))
         missing_macros = sorted(set(re.findall(r'cannot find macro `(\w+)` in this scope', out)))
-        if not missing and not missing_types and not missing_macros:
+        if not missing and not missing_types and not missing_macros and not missing_assoc:
             break
         added = []
+        # a missing private ASSOCIATED function of a type the unit already has (a change added a helper to `impl T`): copy `fn name` from
+        # the source's `impl T` into a further `impl T { }` block
+        srcs_a = sorted({it['source'] for it in items if it.get('source', '').endswith('.rs')})
+        gen_a = [os.path.join(r_, f_) for r_, _, fs_ in os.walk(os.path.join(dst, 'src')) for f_ in fs_ if f_ == 'extracted.rs']
+        for (fname, tname) in (missing_assoc if gen_a else []):
+            for rel in srcs_a:
+                try:
+                    ex2 = extract.Extracted()
+                    text = extract.extract_fn(repo, f'{rel} :: impl {tname} :: fn {fname}\n  plain', '', ex2)
+                except (extract.ExtractError, extract.ScanError):
+                    continue
+                open(gen_a[0], 'a').write(f'\n// helper pulled in by the dependency closure (called by extracted text)\nimpl {tname} {{\n{text}\n}}\n')
+                items += ex2.items
+                rewrites.append(f'dependency closure: copied private helper `{tname}::{fname}` from {rel}')
+                added.append(f'{tname}::{fname}')
+                break
         # a missing private helper MACRO: copy its macro_rules! definition to the FRONT of the generated file (textual scoping)
         srcs_m = sorted({it['source'] for it in items if it.get('source', '').endswith('.rs')})
         gen_m = [os.path.join(r_, f_) for r_, _, fs_ in os.walk(os.path.join(dst, 'src')) for f_ in fs_ if f_ == 'extracted.rs']
